@@ -17,7 +17,7 @@ from sim.gen_expr import gen_ahb_parts, gen_valid, key_universe, render, render_
 from sim.prf import PROFILES, rng
 from sim.props.common import LIVENESS_ERRORS, STATES, base_verdict, clone, fail, liveness_verdict, strip_msg
 from sim.runner import pristine, shrink_decisions
-from sim.world import make_cer, run_requests
+from sim.world import TIME_UNIT, make_cer, run_requests
 
 PROP_ID = "C11"
 LEVEL = "exploration"
@@ -227,7 +227,7 @@ async def do_op(sim, request):
             state["flooded"] += 1024
             sim.count_fault("F6_cache_evict_all")
         elif kind == "S":
-            await asyncio.sleep(op[1])
+            await asyncio.sleep(op[1] * TIME_UNIT)
     return "done"
 
 
